@@ -30,6 +30,14 @@ func c11i(i sdkmath.Int) string {
 var c11Strings = []string{"", "a", "a/b", "/", "//", "b/c", "c", "0x1000000000000000000000000000000000000001", "paloma1qqqsyqcyq5rqwzqfpg9scrgwpugpzysnwq9c2z", "compass-1", "x=y,z", "a/b/c", "%s", "\x00", "é/ü"}
 
 func (r *Rec) c11Str() string {
+	if r.Rng.Intn(6) == 0 {
+		// a well-formed bech32 account address (valid checksum) under one of several prefixes
+		b := make([]byte, 20)
+		r.Rng.Read(b)
+		if e, err := bech32.ConvertAndEncode([]string{"paloma", "paloma", "cosmos", "palomavaloper"}[r.Rng.Intn(4)], b); err == nil {
+			return e
+		}
+	}
 	if r.Rng.Intn(3) == 0 {
 		b := make([]byte, r.Rng.Intn(6))
 		for i := range b {
